@@ -1034,7 +1034,11 @@ func madeMap(v ssa.Value, b *ssa.BasicBlock, seen map[ssa.Value]bool) bool {
 		return true
 	case *ssa.Phi:
 		for i, e := range x.Edges {
-			if !madeMap(e, x.Block().Preds[i], seen) {
+			p := x.Block().Preds[i]
+			if edgeSaysNonNil(p, x.Block(), e) {
+				continue
+			}
+			if !madeMap(e, p, seen) {
 				return false
 			}
 		}
@@ -1113,6 +1117,79 @@ func madeMap(v ssa.Value, b *ssa.BasicBlock, seen map[ssa.Value]bool) bool {
 	return false
 }
 
+// edgeSaysNonNil: the branch from block p to block to is taken only when v is not nil.
+func edgeSaysNonNil(p, to *ssa.BasicBlock, v ssa.Value) bool {
+	for si, sc := range p.Succs {
+		if sc != to {
+			continue
+		}
+		c, truth, ok := edgeCond(p, si)
+		if !ok {
+			continue
+		}
+		bo, ok := c.(*ssa.BinOp)
+		if !ok {
+			continue
+		}
+		var other ssa.Value
+		switch {
+		case sameValue(bo.X, v):
+			other = bo.Y
+		case sameValue(bo.Y, v):
+			other = bo.X
+		default:
+			continue
+		}
+		if !isNilConst(other) {
+			continue
+		}
+		if (bo.Op == token.NEQ && truth) || (bo.Op == token.EQL && !truth) {
+			return true
+		}
+	}
+	return false
+}
+
+// mapWritesByInterpretation: the function (a helper of the evaluator with a subject parameter) is interpreted on a
+// symbolic subject with loops unrolled a few rounds; every map it writes to, directly or inside maps.Copy, is an object
+// it allocated (the value of a nil variable assigned in the first round of a loop and written in the later ones).
+func mapWritesByInterpretation(p *Program, fn *ssa.Function) (int, bool) {
+	for fn.Parent() != nil {
+		fn = fn.Parent()
+	}
+	d := newValDom(p)
+	if d.why != "" {
+		return 0, false
+	}
+	var subjIdx = -1
+	for i, prm := range fn.Params {
+		if isAnyType(prm.Type()) && !isNodeType(prm.Type()) {
+			subjIdx = i
+		}
+	}
+	if subjIdx < 0 {
+		return 0, false
+	}
+	traced := false
+	vr, why := d.runWith(fn, 3, nil, func(e *Engine) { e.TraceMapWrites = true; traced = true })
+	if why != "" || !traced {
+		return 0, false
+	}
+	n := 0
+	for _, o := range vr.outs {
+		for _, ev := range o.St.Trace {
+			if ev.Kind != "mapwrite" {
+				continue
+			}
+			if _, made := ev.Args[0].(avPtr); !made && !o.St.knownNonNil(ev.Args[0]) {
+				return 0, false
+			}
+			n++
+		}
+	}
+	return n, n > 0
+}
+
 func ruleENilMapWrite(p *Program, r *Reporter) {
 	for _, fn := range p.ReachFuncs(p.Eval, p.Root) {
 		name := p.FuncName(fn)
@@ -1142,6 +1219,8 @@ func ruleENilMapWrite(p *Program, r *Reporter) {
 				key := fmt.Sprintf("%s map write#%d (%s)", name, n, what)
 				if madeMap(m, b, map[ssa.Value]bool{}) {
 					r.OK(in.Pos(), key, "the map written to was made by the evaluator (or is tested not to be nil)")
+				} else if n, ok := mapWritesByInterpretation(p, fn); ok {
+					r.OK(in.Pos(), key, fmt.Sprintf("by interpretation of %s: on each of its paths every map written to (%d writes) is one the function made before", name, n))
 				} else {
 					r.Bad(instrPos(in), key, "the map written to ("+describeAddr(m)+") may be a nil map (taken from the data, or a clone of such a map): writing to a nil map panics")
 				}
